@@ -44,6 +44,9 @@ func runSeededCorpus(pid, repo string) map[string]any {
 			continue
 		}
 		m.ID = e.Name()
+		if m.Kind == "missed" {
+			continue // recorded as not caught by the static checks (DESIGN 8.6); nothing to assert
+		}
 		applies := m.Property == pid
 		for _, a := range m.Also {
 			if a == pid {
